@@ -17,6 +17,16 @@ Fixpoint walk_on (b : board) (t : str) : Prop :=
   | _ => True
   end.
 
+(* label classes, the sections of one class, their texts *)
+Definition cls (l : label) : nat :=
+  match l with LK _ => 0 | LE => 1 | LW => 2 | LY => 3 | LX => 4 | LA _ => 5 | LD _ => 6 | LO _ => 7 end%nat.
+Definition isC (k : nat) (x : section) : bool :=
+  match snd x with Some l => Nat.eqb (cls l) k | None => false end.
+Definition texts (k : nat) (sl : list section) : list str := map fst (filter (isC k) sl).
+
+Lemma filter_isC_osec k l : filter (isC k) (osec l) = [].
+Proof. destruct l; reflexivity. Qed.
+
 Section Pipeline.
 Variables isalpha isdigit isupper : N -> bool.
 Variable lower_c : N -> str.
